@@ -561,3 +561,238 @@ def _fpa_replay(m, ob):
                     bad.append(f"task on m0, predecessors on machines {assign} finishing at {afts}: listed {sorted(getattr(x, 'id', x) for x in got)}, "
                                f"cross-machine predecessors are {want}")
     return dict(violated=bool(bad), bounded=True, scope=f"{n} cases: up to 4 predecessors x 3 machines x 2 finish orders", failures=len(bad), observed=bad[:5])
+
+
+# ---------------------------------------------------------------------------------------------------- small-scope replays of queries (round 4)
+# Each enumerates a small scope of the REAL function (objects made without their constructors' file I/O) and evaluates the clause of
+# the property statement concretely.  Used (a) as the native replay of a violated obligation of that function - the verifier's
+# countermodel says WHICH clause fails, the enumeration supplies an input of the real code that shows it - and (b) as the bounded
+# fallback when the function is undecided.  Bounded: never counted as proved.
+def _stub(cls, **kw):
+    o = object.__new__(cls)
+    o.__dict__.update(kw)
+    return o
+
+
+@builder('Observation.is_finished')
+def _obs_is_finished(m, ob):
+    import itertools
+    from topsim.core.instrument import Observation, RunStatus
+    bad, n = [], 0
+    for est, ast, dur, now, tel, st in itertools.product((0, 2), (None, 0, 2, 5), (0, 1, 3), range(0, 10), (True, False),
+                                                        (RunStatus.WAITING, RunStatus.RUNNING, RunStatus.FINISHED)):
+        o = Observation('o', est, dur, 1, 'w.json', 1)
+        o.ast, o.status = ast, st
+        n += 1
+        try:
+            got = bool(o.is_finished(now, tel))
+        except Exception as e:
+            bad.append(f"est={est} ast={ast} duration={dur} now={now}: {type(e).__name__}: {e}")
+            continue
+        want = ast is not None and now >= ast + dur and tel and st is not RunStatus.FINISHED
+        if got != want:
+            bad.append(f"est={est} ast={ast} duration={dur} now={now} telescope_in_use={tel} status={st.name}: is_finished={got}, "
+                       f"the statement gives {want} (finished exactly from actual start + duration on)")
+    return dict(violated=bool(bad), bounded=True, scope=f"{n} cases", failures=len(bad), observed=bad[:5])
+
+
+@builder('Observation.is_ready')
+def _obs_is_ready(m, ob):
+    import itertools
+    from topsim.core.instrument import Observation, RunStatus
+    bad, n = [], 0
+    for est, dem, now, cap, st in itertools.product((0, 3), (0, 2, 5), range(0, 6), (0, 2, 4, 5), (RunStatus.WAITING, RunStatus.RUNNING, RunStatus.FINISHED)):
+        o = Observation('o', est, 3, dem, 'w.json', 1)
+        o.status = st
+        n += 1
+        got = bool(o.is_ready(now, cap))
+        want = est <= now and dem <= cap and st is RunStatus.WAITING
+        if got != want:
+            bad.append(f"est={est} demand={dem} now={now} free arrays={cap} status={st.name}: is_ready={got}, the statement gives {want}")
+    return dict(violated=bool(bad), bounded=True, scope=f"{n} cases", failures=len(bad), observed=bad[:5])
+
+
+def _mk_tel(use, status, obs, total=8):
+    from topsim.user.telescope import Telescope
+    return _stub(Telescope, telescope_use=use, telescope_status=status, observations=obs, total_arrays=total, env=simple_env(0))
+
+
+@builder('Telescope.finish_observation')
+def _tel_finish(m, ob):
+    import itertools
+    from topsim.core.instrument import Observation, RunStatus
+    bad, n = [], 0
+    for use, dem in itertools.product(range(0, 7), range(0, 7)):
+        if dem > use:
+            continue
+        t = _mk_tel(use, True, [])
+        o = Observation('o', 0, 3, dem, 'w.json', 1)
+        n += 1
+        r = t.finish_observation(o)
+        if t.telescope_use != use - dem:
+            bad.append(f"arrays in use {use}, observation of {dem} finishes: {t.telescope_use} in use afterwards, expected {use - dem}")
+        if bool(t.telescope_status) != (use - dem != 0):
+            bad.append(f"arrays in use {use}, observation of {dem} finishes: telescope_status={t.telescope_status} with {t.telescope_use} arrays in use")
+        if r is not RunStatus.FINISHED:
+            bad.append(f"returned {r}")
+    return dict(violated=bool(bad), bounded=True, scope=f"{n} cases", failures=len(bad), observed=bad[:5])
+
+
+@builder('Telescope.begin_observation')
+def _tel_begin(m, ob):
+    import itertools
+    from topsim.core.instrument import Observation, RunStatus
+    bad, n = [], 0
+    for use, dem, st in itertools.product(range(0, 7), range(0, 7), (True, False)):
+        if use + dem > 8 or (use > 0 and not st):
+            continue
+        t = _mk_tel(use, st, [])
+        o = Observation('o', 0, 3, dem, 'w.json', 1)
+        n += 1
+        r = t.begin_observation(o)
+        if t.telescope_use != use + dem or not t.telescope_status or r is not RunStatus.RUNNING:
+            bad.append(f"arrays in use {use}, observation of {dem} begins: use={t.telescope_use} status={t.telescope_status} returned {r}")
+    return dict(violated=bool(bad), bounded=True, scope=f"{n} cases", failures=len(bad), observed=bad[:5])
+
+
+@builder('Telescope.is_idle')
+def _tel_idle(m, ob):
+    import itertools
+    from topsim.core.instrument import Observation, RunStatus
+    S = (RunStatus.WAITING, RunStatus.RUNNING, RunStatus.FINISHED)
+    bad, n = [], 0
+    for k in range(0, 4):
+        for sts in itertools.product(S, repeat=k):
+            for use, status in itertools.product((0, 1, 3), (True, False)):
+                obs = []
+                for i, s in enumerate(sts):
+                    o = Observation(f'o{i}', i, 3, 0 if i == 0 else 2, 'w.json', 1)
+                    o.status = s
+                    obs.append(o)
+                t = _mk_tel(use, status, obs)
+                n += 1
+                got = bool(t.is_idle())
+                want = all(s is RunStatus.FINISHED for s in sts) and not status and use == 0
+                if got != want:
+                    bad.append(f"observations {[s.name for s in sts]} (demands {[o.demand for o in obs]}), arrays in use {use}, telescope_status={status}: "
+                               f"is_idle={got}, the statement gives {want}")
+    return dict(violated=bool(bad), bounded=True, scope=f"{n} cases", failures=len(bad), observed=bad[:5])
+
+
+class _Q:
+    """an actor stub whose query answers a fixed value (and is a METHOD, so `x.is_idle` without the call is truthy as in Python)"""
+    def __init__(self, v):
+        self.v = v
+
+    def is_idle(self):
+        return self.v
+
+    def is_empty(self):
+        return self.v
+
+
+@builder('Simulation.is_finished')
+def _sim_finished(m, ob):
+    import itertools
+    from topsim.core.simulation import Simulation
+    bad, n = [], 0
+    for b, c, s, i in itertools.product((True, False), repeat=4):
+        sim = _stub(Simulation, buffer=_Q(b), cluster=_Q(c), scheduler=_Q(s), instrument=_Q(i), env=simple_env(0), running=True)
+        n += 1
+        got = bool(sim.is_finished())
+        want = b and c and s and i
+        if got != want:
+            bad.append(f"buffer empty={b}, cluster idle={c}, scheduler idle={s}, telescope idle={i}: is_finished={got}, the statement gives {want}")
+    return dict(violated=bool(bad), bounded=True, scope=f"{n} cases", failures=len(bad), observed=bad[:5])
+
+
+@builder('Buffer.is_empty')
+def _buf_empty(m, ob):
+    import itertools
+    from topsim.core.buffer import Buffer, HotBuffer, ColdBuffer
+    bad, n = [], 0
+    caps = (10, 100, 5e11)
+    for hc, cc in itertools.product(caps, caps):
+        for hd, cd in itertools.product((0, 1, 7, 300), (0, 1, 7, 250)):
+            if hd > hc or cd > cc:
+                continue
+            hot = _stub(HotBuffer, total_capacity=hc, current_capacity=hc - hd)
+            cold = _stub(ColdBuffer, total_capacity=cc, current_capacity=cc - cd)
+            b = _stub(Buffer, hot={0: hot}, cold={0: cold}, env=simple_env(0))
+            n += 1
+            got = bool(b.is_empty())
+            want = hd == 0 and cd == 0
+            if got != want:
+                bad.append(f"hot holds {hd} of {hc}, cold holds {cd} of {cc}: is_empty={got}, the statement gives {want}")
+    return dict(violated=bool(bad), bounded=True, scope=f"{n} cases", failures=len(bad), observed=bad[:5])
+
+
+def _transfer_replay(cls_name):
+    def run(m, ob):
+        import itertools
+        import topsim.core.buffer as B
+        from topsim.core.instrument import Observation
+        cls = getattr(B, cls_name)
+        bad, n = [], 0
+        for rate, resid, held in itertools.product((1, 2, 3, 5, 8), range(1, 15), (0, 4)):
+            o = Observation('o', 0, 3, 1, 'w.json', 1)
+            o.total_data_size = resid
+            cap0 = 50
+            buf = _stub(cls, total_capacity=100, current_capacity=cap0, observations={'stored': [], 'transfer': o, 'scheduled': []},
+                        max_ingest_data_rate=rate, max_data_rate=rate, env=simple_env(0))
+            n += 1
+            try:
+                left = buf.transfer_observation(o, rate, resid)
+            except Exception as e:
+                bad.append(f"rate {rate}, residual {resid}: {type(e).__name__}: {e}")
+                continue
+            sent = min(rate, resid)
+            if buf.current_capacity - cap0 != sent or left != resid - sent:
+                bad.append(f"rate {rate}, residual {resid}: freed {buf.current_capacity - cap0} and reports {left} left; "
+                           f"the statement gives min(rate, residual) = {sent} freed and {resid - sent} left")
+            if (buf.observations['transfer'] is None) != (resid - sent == 0):
+                bad.append(f"rate {rate}, residual {resid}: transfer slot {'cleared' if buf.observations['transfer'] is None else 'kept'} with {resid - sent} left")
+        return dict(violated=bool(bad), bounded=True, scope=f"{n} cases", failures=len(bad), observed=bad[:5])
+    return run
+
+
+BUILDERS['HotBuffer.transfer_observation'] = _transfer_replay('HotBuffer')
+BUILDERS['ColdBuffer.transfer_observation'] = _transfer_replay('ColdBuffer')
+
+
+def _machine_replay(m, ob):
+    """Machine.run / run_task / stop_task on ingest-like tasks (io a number): exactly one do_work started, capacities restored"""
+    import itertools
+    from topsim.core.machine import Machine, Status
+    from topsim.core.task import Task, TaskStatus
+    bad, n = [], 0
+    for flops, data, io, cpu in itertools.product((0, 3), (0, 2), (0, 1), (5, 7)):
+        env = simple_env(0)
+        mc = Machine('m', cpu, 11, 13, 17)
+        t = Task('t', 0, 0, None, None, flops, data, io, None)
+        t.duration = 2
+        t.task_status = TaskStatus.SCHEDULED
+        started = []
+        real = t.do_work
+
+        def do_work(env_, machine, preds=None, _real=real, _started=started):
+            _started.append(machine)
+            return _real(env_, machine, preds)
+        t.do_work = do_work
+        n += 1
+        try:
+            ret = mc.run(t, env, None)
+        except Exception as e:
+            bad.append(f"flops={flops} data={data} io={io}: {type(e).__name__}: {e}")
+            continue
+        if len(started) != 1 or started[0] is not mc:
+            bad.append(f"flops={flops} data={data} io={io}: {len(started)} executions started by one Machine.run")
+        if (mc.cpu, mc.memory, mc.disk) != (cpu, 11, 13) or mc.status is not Status.IDLE or mc.current_task is not None:
+            bad.append(f"flops={flops} data={data} io={io}: machine left with cpu={mc.cpu} memory={mc.memory} disk={mc.disk} status={mc.status}")
+        if not hasattr(ret, 'triggered'):
+            bad.append(f"flops={flops} data={data} io={io}: Machine.run returned {ret!r}, not the process it started")
+    return dict(violated=bool(bad), bounded=True, scope=f"{n} cases", failures=len(bad), observed=bad[:5])
+
+
+for _fn in ('run', 'run_task', 'stop_task'):
+    BUILDERS['Machine.' + _fn] = _machine_replay
